@@ -387,6 +387,16 @@ def r19_6(ctx):
     t = src(em.node)
     ok = 'np.unique(self.kv, return_inverse=True)' in t
     ctx.decide('R19.6', em.qual, 'mesh and knots_to_mesh from one np.unique(..., return_inverse=True)', ok or None, em.node)
+    # the breakpoints are the DISTINCT knot values: a comparison with a tolerance (np.diff(kv) > eps, np.isclose) merges
+    # knots that differ by less than the tolerance, so numspans / mesh_support_idx disagree with kv, numdofs and findspan
+    tol = [c for c in ast.walk(em.node) if isinstance(c, ast.Compare) and any(isinstance(x, ast.Constant) and isinstance(x.value, float)
+                                                                             and 0 < abs(x.value) < 1e-3 for x in ast.walk(c))]
+    tol += [c for c in ast.walk(em.node) if isinstance(c, ast.Call) and (call_name(c) or '').split('.')[-1] in ('isclose', 'allclose')]
+    if tol:
+        ctx.violated('R19.6', em.qual, src(tol[0])[:80], tol[0],
+                     'the mesh is built with a tolerance instead of from the distinct knot values: knot vectors with spans shorter than the '
+                     'tolerance (make_knots(2, 0, 1e-5, 2000)) collapse to fewer breakpoints, so numspans, mesh_span_indices and '
+                     'mesh_support_idx no longer agree with kv, numdofs and the span search')
     # every reader of _mesh/_knots_to_mesh calls _ensure_mesh first
     n = 0
     for name, m in cls.methods.items():
@@ -476,6 +486,27 @@ def r19_6(ctx):
             ctx.undecided('R19.6', rf.qual, 'midpoints of the default refinement are taken between distinct breakpoints', dflt[0], 'origins: %s' % sorted(og))
 
 
+def r19_8(ctx):
+    """refine(new_knots) returns the sorted union WITH multiplicities: a repeated value in new_knots inserts that knot
+    several times.  No de-duplication (np.unique, set) may be applied to the caller's new knots."""
+    rf = ctx.prog.func(B + '.KnotVector.refine')
+    bad = []
+    for c in ast.walk(rf.node):
+        if isinstance(c, ast.Call) and ((call_name(c) or '') in ('np.unique', 'set', 'frozenset', 'np.union1d', 'dict.fromkeys')) \
+                and any(isinstance(x, ast.Name) and x.id == 'new_knots' for a in c.args for x in ast.walk(a)):
+            # the default branch (new_knots is None) computes midpoints of the mesh: distinct by construction
+            facts = guards.dominating_facts(c)
+            if guards.has_literal(facts, 'new_knots is None', True):
+                continue
+            bad.append(c)
+    if bad:
+        ctx.violated('R19.8', rf.qual, src(bad[0])[:80], bad[0],
+                     'the new knots are de-duplicated before they are merged: refine([0.3, 0.3]) inserts the knot once instead of twice, so the '
+                     'result is not the sorted union of the knots (fewer dofs than requested, no error)')
+    else:
+        ctx.met('R19.8', rf.qual, 'new knots are merged with their multiplicities', rf.node, 'no de-duplication of the caller\'s knots')
+
+
 def r19_7(ctx):
     """The construction parameters of make_knots reach the arrays as requested: a parameter that is rebound through a
     clamp (min / max / np.clip against another parameter) silently changes the requested number of spans, degree or
@@ -505,7 +536,29 @@ def r19_7(ctx):
         ctx.met('R19.7', f.qual, 'parameters (%s) are used as passed' % ', '.join(params), f.node, 'no parameter is rebound')
 
 
+def r19_9(ctx):
+    """KnotVector.__eq__ is symmetric: np.allclose(a, b, rtol > 0) scales its relative tolerance by |b| only, so a test that
+    calls it in one direction can say kv1 == kv2 and kv2 != kv1 for a borderline pair.  (The memo of spaces keyed by this
+    equality, G7, relies on it.)"""
+    f = ctx.prog.func(B + '.KnotVector.__eq__')
+    calls = [c for c in ast.walk(f.node) if isinstance(c, ast.Call) and (call_name(c) or '').split('.')[-1] in ('allclose', 'isclose')]
+    if not calls:
+        ctx.met('R19.9', f.qual, 'no one-sided tolerance test', f.node, 'equality does not use np.allclose')
+        return
+    def sig(c):
+        return (src(c.args[0]).replace(' ', ''), src(c.args[1]).replace(' ', '')) if len(c.args) >= 2 else None
+    pairs = {sig(c) for c in calls}
+    symmetric = any(p_ is not None and (p_[1], p_[0]) in pairs for p_ in pairs)
+    rtol0 = all((kwarg(c, 'rtol', 2) is not None and src(kwarg(c, 'rtol', 2)) in ('0', '0.0')) for c in calls)
+    ctx.decide('R19.9', f.qual, src(calls[0])[:90], True if (symmetric or rtol0) else False, calls[0],
+               'tested in both directions (or with an absolute tolerance only)' if (symmetric or rtol0) else
+               'np.allclose(self.kv, other.kv, rtol=...) is asymmetric in its arguments (|a - b| <= atol + rtol*|b|): for make_knots(1, 0, 1e6, 1) '
+               'and make_knots(1, 0, 1000000.01000001, 1) kv1 == kv2 is True and kv2 == kv1 is False', definite=True)
+
+
 def run(ctx):
+    r19_9(ctx)
+    r19_8(ctx)
     r19_7(ctx)
     r19_1(ctx)
     r19_2(ctx)
